@@ -56,7 +56,7 @@ func (m *Machine) Rebuild() {
 	var inner z80.Memory
 	switch src := m.Mem.Inner.(type) {
 	case *LazyMem:
-		n := &LazyMem{seed: src.seed, ov: map[uint16]uint8{}}
+		n := &LazyMem{seed: src.seed, val: src.val, ov: map[uint16]uint8{}}
 		for k, v := range src.ov {
 			n.ov[k] = v
 		}
